@@ -98,6 +98,20 @@ def worker(spec):
         async def aclose(s, *e):
             pass
 
+    class SX(S):
+        """exit method defined under another name (`__exit__ = shut`): nothing may key on its __name__"""
+
+        def shut(s, *e):
+            pass
+
+        __exit__ = shut
+
+    class AX(A):
+        async def ashut(s, *e):
+            pass
+
+        __aexit__ = ashut
+
     def fn(*e, **k):
         pass
 
@@ -198,10 +212,14 @@ def worker(spec):
     async def build(n):
         k = n[0]
         if k == "S":
-            m = S(n[1])
+            m = (SX if rng.random() < 0.15 else S)(n[1])
+            if isinstance(m, SX):
+                res.count("alias_named_exit_managers")
             return m, ("plain", m, False)
         if k == "A":
-            m = A(n[1])
+            m = (AX if rng.random() < 0.15 else A)(n[1])
+            if isinstance(m, AX):
+                res.count("alias_named_exit_managers")
             return m, ("plain", m, True)
         if k in ("g1", "gyf", "ag1", "gx", "agx"):
             a, ea = await build(n[1])
